@@ -54,7 +54,7 @@ neighbor 127.0.0.2 {{
     neighbor-changes;
     fsm;
     negotiated;
-    receive {{ parsed; update; notification; open; keepalive; refresh; }}
+    {receive}
   }}
   {static}
 }}
@@ -96,10 +96,11 @@ class ReactorStub:
 
 
 class PeerWorld:
-    def __init__(self, hold=9, local_as=65000, peer_as=65001, passive=False, extra='', static='', openwait=60, tail='', route_refresh=True) -> None:
+    def __init__(self, hold=9, local_as=65000, peer_as=65001, passive=False, extra='', static='', openwait=60, tail='', route_refresh=True, receive=True) -> None:
         RIB._cache.clear()
         Connection.identifier.clear()
-        self._fmt = dict(hold=hold, local_as=local_as, peer_as=peer_as, passive='passive true;' if passive else '', extra=extra, rr='enable' if route_refresh else 'disable')
+        self._fmt = dict(hold=hold, local_as=local_as, peer_as=peer_as, passive='passive true;' if passive else '', extra=extra, rr='enable' if route_refresh else 'disable',
+                         receive='receive { parsed; update; notification; open; keepalive; refresh; }' if receive else '')
         text = self.config_text(static, tail)
         self.conf = Configuration([text], text=True)
         if not self.conf.reload():
@@ -205,7 +206,10 @@ class PeerWorld:
                 world.log('got', c=world.conn_id(conn), kind='lost', err=type(exc).__name__)
                 raise
             if not m.SCHEDULING:
-                world.log('got', c=world.conn_id(conn), kind='msg', type=int(m.TYPE[0]) if isinstance(m.TYPE, bytes) else int(m.TYPE))
+                from exabgp.reactor import protocol as _protocol
+
+                kind = 'undecoded' if m is getattr(_protocol, '_UPDATE', None) else 'msg'   # UPDATE nobody asked to decode
+                world.log('got', c=world.conn_id(conn), kind=kind, type=int(m.TYPE[0]) if isinstance(m.TYPE, bytes) else int(m.TYPE))
             return m
 
         Protocol.read_message = read_message
